@@ -61,6 +61,7 @@ struct FuncSig {
 
 pub struct Program {
     pub wat: String,
+    #[allow(dead_code)]
     pub flavour: Flavour,
     /// (export name, number of i64 parameters)
     pub exports: Vec<(String, usize)>,
